@@ -428,11 +428,50 @@ def unit_periodic_geometry(ctx):
                  f"{got[w] if w else got.shape!r}, the unit reference ring gives {ref[w] if w else ref.shape!r} (scaled)", instance=ctx.key())
 
 
+FLAG_FORMS = {"False": False, "numpy.False_": np.bool_(False), "0": 0, "numpy.int64(0)": np.int64(0),
+              "True": True, "numpy.True_": np.bool_(True), "1": 1}
+
+
+def unit_flags(ctx):
+    """argument representations: ``restrict2valid`` as a Python bool, a numpy bool (what ``mask.all()`` returns), an
+    integer; ``order`` as a numpy integer.  The derivative must be, bit for bit, what the plain Python values give
+    ("with the validity restriction switched off treats the whole line as one run" does not depend on how off is
+    spelled)."""
+    L = ctx.choose("L", [3, 4, 6])
+    pat = ctx.choose("pattern", sorted({(1 << L) - 1, 0b101101 & ((1 << L) - 1), 0b011011 & ((1 << L) - 1), 1}))
+    order = ctx.choose("order", [1, 2])
+    periodic = ctx.choose("periodic", [False, True])
+    flag = ctx.choose("restrict2valid", list(FLAG_FORMS))
+    oform = ctx.choose("order-form", ["int", "numpy.int64", "numpy.int8"])
+    valid = [bool((pat >> i) & 1) for i in range(L)]
+    probes = np.stack([C.tracer((L,), 1, ctx.seed)[:, 0], (np.arange(L) + 0.5) ** 2], axis=1)
+    f = _build(L, valid, 0.5, periodic, probes)
+    g = _build(L, valid, 0.5, periodic, probes)
+    ref = g.diff("x", order=order, restrict2valid=bool(FLAG_FORMS[flag]))
+    o = {"int": order, "numpy.int64": np.int64(order), "numpy.int8": np.int8(order)}[oform]
+    ctx.step(1, f"diff(x, order={o!r}, restrict2valid={FLAG_FORMS[flag]!r})")
+    raised, d = C.raises(f.diff, "x", order=o, restrict2valid=FLAG_FORMS[flag])
+    ctx.check()
+    inst = ctx.key()
+    if raised:
+        if oform != "int" and isinstance(d, TypeError):
+            ctx.note("numpy-integer-order-refused")  # refusing a representation loses nothing
+            return
+        ctx.fail("diff/flags/raises", f"{type(d).__name__}: {str(d)[:140]}", instance=inst)
+        return
+    ctx.observe(flag, np.round(d.array, 9))
+    if not C.same_bytes(np.asarray(d.array), np.asarray(ref.array)) or not np.array_equal(d.valid, ref.valid):
+        ctx.fail("diff/flags/result-depends-on-the-representation-of-an-argument",
+                 f"restrict2valid={FLAG_FORMS[flag]!r} ({type(FLAG_FORMS[flag]).__name__}), order={o!r}: "
+                 f"{np.asarray(d.array)[:, 0].tolist()} but with Python values {np.asarray(ref.array)[:, 0].tolist()}", instance=inst)
+
+
 def units(tier):
     return [
         {"name": "line", "fn": unit_line, "bound": None},
         {"name": "embed", "fn": unit_embed, "bound": None},
         {"name": "keyword_bc", "fn": unit_keyword_bc, "bound": None},
         {"name": "reuse", "fn": unit_reuse, "bound": None},
+        {"name": "flags", "fn": unit_flags, "bound": None},
         {"name": "periodic_geometry", "fn": unit_periodic_geometry, "bound": None},
     ]
